@@ -13,6 +13,9 @@
 //   mode 5  the four comment formatters of the real vhdl::DefaultCodeFormatting on generated comment texts (ncases cases x 16 calls)
 //   mode 6  directed designs with logic-driven resets / clocks (Clock::overrideRstWith / overrideClkWith) whose expressions go
 //           through multiplexers over signals that are declared first and assigned later, plus multi-line comments (ncases cases)
+//   mode 7  directed designs around vector constants of widths 1..7, 60..70, 65..140, 129..200 (mostly not multiples of 4): fully
+//           defined, all-zero, all-one and partly undefined ones, used as register reset values, operands, comparison operands,
+//           multiplexer inputs, named constants and output drivers (ncases cases)
 // Modes 2, 3, 6 attach generated multi-line comments (entities, areas, nodes) to about half of the designs; every comment line
 // carries the marker CMARK so that the driver can verify that the text only ever appears behind `--`.
 // Protocol (see lean/Driver/C13.lean):
@@ -654,6 +657,72 @@ static void dumpTree(const std::filesystem::path &dir, const std::filesystem::pa
 	}
 }
 
+// directed pattern family (mode 7): constants of awkward widths in every position a literal can be written to
+struct ConstGen {
+	Rng &r;
+	NameSource &names;
+	ConstGen(Rng &rng, NameSource &n) : r(rng), names(n) {}
+
+	size_t pickWidth() {
+		for (;;) {
+			size_t w;
+			switch (r.below(4)) {
+				case 0: w = r.range(1, 7); break;
+				case 1: w = r.range(60, 70); break;
+				case 2: w = r.range(65, 140); break;
+				default: w = r.range(129, 200); break;
+			}
+			if (w % 4 != 0 || r.chance(1, 4)) return w;
+		}
+	}
+	// kind 0 random fully defined, 1 all zero, 2 all one, 3 partly undefined
+	UInt constant(size_t w, unsigned kind) {
+		std::string lit = "b";
+		for (size_t i = 0; i < w; i++) {
+			char c = kind == 1 ? '0' : kind == 2 ? '1' : (r.chance(1, 2) ? '1' : '0');
+			if (kind == 3 && r.chance(1, 5)) c = 'x';
+			lit += c;
+		}
+		if (kind == 3 && lit.find('x') == std::string::npos) lit[1 + r.below(w)] = 'x';
+		UInt c = lit.c_str();
+		return c;
+	}
+
+	void build() {
+		ClockConfig cfg;
+		cfg.absoluteFrequency = hlim::ClockRational(100'000'000);
+		cfg.name = names.get("clk");
+		if (r.chance(1, 2)) cfg.resetName = names.get("rst");
+		if (r.chance(1, 3)) cfg.resetType = ClockConfig::ResetType::ASYNCHRONOUS;
+		Clock clock(cfg);
+		ClockScope cs(clock);
+		Bit sel = pinIn().setName(names.get("pin"));
+		size_t nw = r.range(1, 3);
+		for (size_t k = 0; k < nw; k++) {
+			size_t w = pickWidth();
+			UInt in = pinIn(BitWidth(w)).setName(names.get("pin"));
+			UInt v = in;
+			size_t nuse = r.range(2, 5);
+			for (size_t u = 0; u < nuse; u++) {
+				unsigned kind = (unsigned) r.below(4);
+				unsigned use = (unsigned) r.below(7);
+				if (getenv("C13_DEBUG")) std::cerr << "const w=" << w << " kind=" << kind << " use=" << use << std::endl;
+				switch (use) {
+					case 0: { UInt c = constant(w, kind == 3 ? 0 : kind); unsigned o = (unsigned) r.below(4); v = o == 0 ? UInt(v ^ c) : o == 1 ? UInt(v & c) : o == 2 ? UInt(v | c) : UInt(v + c); } break;
+					case 1: { UInt c = constant(w, kind == 3 ? 0 : kind); Bit e = r.chance(1, 2) ? Bit(v == c) : Bit(v < c); IF (e) v = ~v; } break;
+					case 2: { UInt c = constant(w, kind); IF (sel) v = c; } break;                                   // multiplexer input
+					case 3: { UInt c = constant(w, kind == 3 ? 0 : kind); v = reg(v, c); } break;                     // register reset value
+					case 4: { UInt c = constant(w, kind); pinOut(c).setName(names.get("pin")); } break;             // output driver
+					case 5: { UInt c = constant(w, kind); setName(c, names.get("const")); IF (sel) v = c; } break;   // named constant
+					default: { UInt c = constant(w, kind == 3 ? 0 : kind); UInt t = v; IF (sel) t = c; v = reg(t, constant(w, r.chance(1, 2) ? 1 : 2)); } break;
+				}
+				if (r.chance(1, 3)) setName(v, names.get("sig"));
+			}
+			pinOut(v).setName(names.get("pin"));
+		}
+	}
+};
+
 static void exportCase(const std::string &id, Rng r, NamePool *pool, const std::string &fixed, int directed = 0) {
 	std::ostringstream log;
 	NameSource names;
@@ -668,7 +737,10 @@ static void exportCase(const std::string &id, Rng r, NamePool *pool, const std::
 	std::ostringstream circuitLog;
 	try {
 		DesignScope design;
-		if (directed == 2) {
+		if (directed == 3) {
+			ConstGen g(r, names);
+			g.build();
+		} else if (directed == 2) {
 			OverrideGen g(r, names);
 			g.build();
 		} else if (directed == 1) {
@@ -742,6 +814,13 @@ int main(int argc, char **argv) {
 		}
 	} else if (mode == 5) {
 		for (uint64_t i = 0; i < ncases; i++) { Rng r = top.fork(); commentCase(r, i); }
+	} else if (mode == 7) {
+		for (uint64_t i = 0; i < ncases; i++) {
+			Rng r = top.fork();
+			NamePool pool(r, (unsigned) r.range(2, 5));
+			if (r.chance(2, 3)) for (auto &b : pool.bases) b = randomIdent(r);
+			exportCase("k" + std::to_string(i), r.fork(), &pool, "", 3);
+		}
 	} else if (mode == 6) {
 		for (uint64_t i = 0; i < ncases; i++) {
 			Rng r = top.fork();
